@@ -412,12 +412,14 @@ class SqlImpl(TableImpl):
                     else:
                         needed_cols[node._uuid] = cnt + 1
 
+            compared_cols = []
             if isinstance(nd, verbs.Union) and nd.distinct:
                 # UNION compares whole rows: a subquery below it must not drop the
                 # columns that are not used further up.
                 for operand in (nd.child, nd.right):
                     for col in Cache.from_ast(operand).selected_cols():
                         needed_cols[col._uuid] = needed_cols.get(col._uuid, 0) + 1
+                        compared_cols.append(col._uuid)
 
             table, query, sqa_expr = cls.compile_ast(nd.child, needed_cols)
 
@@ -609,6 +611,13 @@ class SqlImpl(TableImpl):
                 # Wrap right AST with Select to reorder columns and recompile
                 right_ast = verbs.Select(nd.right, reordered_cols)
                 right_table, right_query, right_sqa_expr = cls.compile_ast(right_ast, needed_cols)
+
+            # The operands are compiled: the columns that were only kept for the comparison
+            # of whole rows are of no concern to subqueries further up.
+            for uid in compared_cols:
+                needed_cols[uid] -= 1
+                if needed_cols[uid] == 0:
+                    del needed_cols[uid]
 
             # The row order of the operands of a union is not preserved, and an ORDER BY
             # inside a compound SELECT is a syntax error on some dialects (SQLite). A
